@@ -636,6 +636,16 @@ class Folder:
                 repo_callee = None
         if e.keywords and repo_callee is None and name not in ("int", "itertools.product", "sorted", "max", "min") and not (isinstance(e.func, ast.Name) and isinstance(self.env.get(e.func.id), Abstract)) and not (isinstance(e.func, ast.Attribute) and dotted(e.func) and dotted(e.func).split(".")[0] in self.env):
             raise Unfoldable(unparse(e))
+        if isinstance(e.func, ast.Attribute) and e.func.attr == "to_bytes" and 1 <= len(args) <= 2:
+            v = self.fold(e.func.value)
+            if isinstance(v, int) and not isinstance(v, bool):
+                try:
+                    return v.to_bytes(*[self.fold(a) for a in args], **{k.arg: self.fold(k.value) for k in e.keywords if k.arg in ("byteorder", "signed", "length")})
+                except (OverflowError, ValueError) as ex:
+                    from .absint import Raised
+
+                    raise Raised(type(ex).__name__, e)
+            raise Unfoldable(unparse(e))
         if isinstance(e.func, ast.Attribute) and e.func.attr == "bit_length" and not args:
             v = self.fold(e.func.value)
             if isinstance(v, int):
@@ -822,6 +832,22 @@ class Folder:
                     acc = call_value(self, f, [acc, v])
                 return acc
             raise Unfoldable(unparse(e))
+        if name == "int.from_bytes" and len(args) >= 1:
+            kw = {k.arg: self.fold(k.value) for k in e.keywords if k.arg in ("byteorder", "signed")}
+            vals_ = [self.fold(a) for a in args]
+            if isinstance(vals_[0], (bytes, bytearray)):
+                return int.from_bytes(*vals_, **kw)
+            raise Unfoldable(unparse(e))
+        if name in ("bytes", "bytearray") and len(args) <= 1 and not e.keywords:
+            v0 = self.fold(args[0]) if args else b""
+            if isinstance(v0, (bytes, bytearray, memoryview, list, tuple, int)) and not isinstance(v0, bool):
+                try:
+                    return bytes(v0) if name == "bytes" else bytearray(v0)
+                except (ValueError, TypeError) as ex:
+                    from .absint import Raised
+
+                    raise Raised(type(ex).__name__, e)
+            raise Unfoldable(unparse(e))
         if name == "itertools.count" and len(args) <= 2 and not e.keywords:
             import itertools as _it
 
@@ -866,10 +892,10 @@ class Folder:
                         kn.append(x.name if isinstance(x, ClassInfo) else getattr(x, "__name__", None) if isinstance(x, type) else dk)
                 else:
                     kn.append(dk)
-            pyk = {"bytes": bytes, "bytearray": bytearray, "int": int, "bool": bool, "str": str, "float": float, "complex": complex, "fractions.Fraction": Fraction, "Fraction": Fraction, "set": (set, frozenset), "frozenset": frozenset, "list": list, "tuple": tuple, "dict": dict}
+            pyk = {"bytes": bytes, "bytearray": bytearray, "int": int, "bool": bool, "str": str, "float": float, "complex": complex, "memoryview": memoryview, "object": object, "fractions.Fraction": Fraction, "Fraction": Fraction, "set": (set, frozenset), "frozenset": frozenset, "list": list, "tuple": tuple, "dict": dict}
             if all(k in pyk for k in kn) and not isinstance(v, Sym) and not isinstance(getattr(v, "_isa_", None), (set, frozenset)):
                 return any(isinstance(v, pyk[k]) for k in kn)  # type: ignore
-            if not isinstance(v, Abstract) and (v is None or isinstance(v, (int, str, float, bool, Fraction, list, tuple, dict, set, frozenset, bytes))):
+            if not isinstance(v, Abstract) and (v is None or isinstance(v, (int, str, float, bool, Fraction, list, tuple, dict, set, frozenset, bytes, bytearray, memoryview))):
                 # a plain value is an instance of the builtin classes listed, never of a class of the repository
                 res_ = False
                 known = True
